@@ -50,7 +50,7 @@ CLAIMED = {
  'C17': ('Lean 4 proof: bookkeeping invariant (one sample per instant per present key) by induction over update/reset sequences; advertised iff recorded for all kinds x data subsets',
          'advertised_iff_records, lengths_inv, export_total, last_is_attr. Tie: all element kinds x optional-data subsets x schedules; keys/lengths vs model; export and snapshot executed on every simulated powertrain.'),
  'C18': ('Lean 4 proof: interpolation at knots / between knots on strictly increasing axes, commutation with unit conversion, column selection logic',
-         'interp_at_knot, interp_between / interp_between_at (any segment of an unequally spaced axis), interp_within, interp_not_sample / interp_offset (no snapping to a neighbouring sample), interp_outside_left/right, cell_linear, columns_subset/complete, reports_iff, sortOrder_matches. Tie: real snapshot tables and re-read CSV exports compared cell by cell with the oracle and the model.'),
+         'interp_at_knot, interp_between / interp_between_at (any segment of an unequally spaced axis), interp_within, interp_not_sample / interp_offset (no snapping to a neighbouring sample), interp_outside_left/right, cell_linear, columns_subset/complete, reports_iff, sortOrder_matches, exportColumn_cell / exportColumn_unit_invariant / exportColumn_append (a series whose samples carry different units is exported sample by sample). Tie: real snapshot tables and re-read CSV exports compared cell by cell with the oracle and the model (exported columns against exportColumn on the stored value/unit pairs).'),
  'C19': ('Lean 4 proof: validity invariant over all straight-line programs of quantity operations (induction on the program) + constructor iffs',
          'valid_inv (every live object valid after every step of every program), sub_none_unreachable, mk_ok_iff, motorCtor_ok_iff, setPwm_ok_iff. Tie: random 40-step programs with store inspection on both sides, tiny-value stream (finds K4), constructor boundary cases.'),
  'C20': ('Lean 4 proof: chain walk (with fuel) is linked by drives and suffix-closed; error cases; self-locking flag iff',
